@@ -29,10 +29,10 @@ def positive_values():
 
 
 @st.composite
-def cases(draw, nums=("frac",), ops=None):
+def cases(draw, nums=("frac",), ops=None, alike=False):
     op = draw(st.sampled_from(ops or (BINOPS * 3 + SCALAROPS)))
     num = draw(st.sampled_from(list(nums)))
-    (U, p), (V, q) = draw(gen.same_interval_pair(pmax=3, kmax=3))
+    (U, p), (V, q) = draw(gen.same_interval_pair(pmax=3, kmax=3, alike=alike))
     nA, nB = len(U) - p - 1, len(V) - q - 1
     ratA = draw(st.integers(0, 2)) == 0
     ratB = draw(st.integers(0, 2)) == 0
@@ -61,7 +61,8 @@ def cases(draw, nums=("frac",), ops=None):
     M = draw(st.lists(st.lists(gen.small_fracs(-3, 3, (1, 2)), min_size=2, max_size=2), min_size=2, max_size=2))
     return {"op": op, "A": A, "B": B, "s": s, "M": M, "Mvec": draw(st.booleans()),
             "twin_first": draw(st.integers(0, 2)) == 0,
-            "other_interval": draw(st.integers(0, 9)) == 0}
+            "other_interval": draw(st.integers(0, 9)) == 0,
+            "history": draw(st.sampled_from(lib.HISTORY_MODES))}
 
 
 # ---- tuple arithmetic on reference values
@@ -91,6 +92,22 @@ def check(case, out):
     exact = lib.is_exact(num)
     a, b = lib.case_state(case["A"]), lib.case_state(case["B"])
     A, B = lib.build_curve(case["A"]), lib.build_curve(case["B"])
+    if case.get("history"):
+        # object history: A was constructed with other data, used in arithmetic with B, then re-assigned
+        out.cls("history=" + case["history"])
+
+        def use(curve):
+            lib.default_use(curve)
+            for fn in (lambda: curve + B, lambda: curve * B, lambda: curve / B, lambda: B - curve, lambda: -curve):
+                try:
+                    fn()
+                except Exception as exc0:
+                    if not lib.from_library(exc0) and not isinstance(exc0, (ValueError, TypeError, ZeroDivisionError)):
+                        raise
+        A = lib.build_curve_history(case["A"], case["history"], use)
+        if lib.state_of(A).key() != a.key():
+            out.exclude("setter-history-did-not-reach-the-state (C15 territory)")
+            return
     s = lib.conv_val(case["s"], num)
     fs = oracle.frac(s)
     Mf = [[oracle.frac(lib.conv_val(x, num)) for x in row] for row in case["M"]]
@@ -241,6 +258,9 @@ def check(case, out):
 FACETS = [
     Facet("curve-curve", lambda tier: cases(("frac",), BINOPS), check, quick=500, thorough=8000,
           rule="A op B for op in + - * @ /", case_timeout=120),
+    Facet("curve-curve-alike", lambda tier: cases(("frac",), BINOPS, alike=True), check, quick=200, thorough=3000,
+          rule="operands that look alike: same distinct knots with other multiplicities (same degree / same npts), or "
+               "identical knot vectors", case_timeout=120),
     Facet("scalar", lambda tier: cases(("frac",), SCALAROPS), check, quick=300, thorough=5000,
           rule="unary minus and the scalar / matrix forms"),
     Facet("float", lambda tier: cases(("float", "npfloat")), check, quick=200, thorough=3000,
